@@ -106,6 +106,18 @@ ADDED['C12'] += ' Posting the sync request depends on the trigger alone (decidin
 ADDED['C16'] += ' The tools validate blob headers version-tolerantly; the output writer resets its cached-bytes counter wherever records leave its cache; record counts are never map sizes.'
 ADDED['C17'] += ' Hand-written serde codecs use the data-model methods of the pinned release; the header CRC covers the whole patched header.'
 
+ADDED['C10'] += ' The offset of the bloom buffer inside the index file equals, as an affine form over the writer\'s layout, the position the serializer puts it at (affine layout algebra over MIR).'
+ADDED['C03'] += ' Reader and writer agree on the filter-section layout (affine layout algebra); the tree walk hands over to the next leaf.'
+ADDED['C17'] += ' The filter-section offsets computed by the loader equal the pinned writer layout (affine forms).'
+ADDED['C09'] += ' The layer passes of the tree serializer share one amount computation and their loop guards agree on the capacity; the leaf walk hands over to the right sibling.'
+ADDED['C02'] += ' Every blob that contributes entries advances the counter that enables the cross-blob merge.'
+ADDED['C04'] += ' Every entry source is counted for the cross-blob merge.'
+ADDED['C05'] += ' A reused buffer is resized on every path before an exact positional read fills it.'
+ADDED['C11'] += ' An index is dumped with the same notion of blob size it is later loaded and validated against.'
+ADDED['C13'] += ' No re-raised panic (resume_unwind) is reachable from the worker loop.'
+ADDED['C14'] += ' In a running session an index is rebuilt from the blob file only on the Err of loading the index file.'
+ADDED['C16'] += ' Every ok return of the recovery / migration driver passes the creation of the output and the write of its header; the sequential index loader groups headers by key lookup, never by map position.'
+
 for _k, _v in ADDED.items():
     _t = CHECKS[_k]
     CHECKS[_k] = (_t[0] + _v, _t[1], _t[2])
